@@ -356,6 +356,34 @@ def _explicit_pairs_chunk(chunk, prop):
     return res
 
 
+def _premarked_chunk(chunk, prop):
+    """Inputs whose nodes already carry metadata under the key the result uses ('dc') -- as a tree does that is itself the
+    result of an earlier diff: marks of the result must come from *this* comparison only."""
+    from nutree.diff import DiffClassification as DC
+
+    res = Result(prop)
+    stale = (DC.ADDED, DC.REMOVED, DC.MOVED_HERE, (1, 0))
+    for sa, sb in chunk:
+        t0, n0 = gen.build(sa, name="T0")
+        t1, n1 = gen.build(sb, name="T1")
+        for k, n in enumerate(n0 + n1):
+            n.set_meta("dc", stale[k % len(stale)])
+            n.set_meta("note", k)
+        obs0, obs1 = view.obs(t0), view.obs(t1)
+        for ordered, reduce in CONFIGS:
+            try:
+                diffs, modified = eval_pair(t0, t1, obs0, obs1, ordered, reduce)
+            except Exception:  # noqa: BLE001
+                res.errors.append(f"premarked {sa.short()} | {sb.short()} o={ordered} r={reduce}: {traceback.format_exc()[-800:]}")
+                continue
+            res.add_case(f"premarked {sa.short()}|{sb.short()}|{int(ordered)}{int(reduce)}", nontrivial=True)
+            if diffs:
+                _record(res, [(c, "[inputs carry 'dc' metadata of an earlier diff] " + t) for c, t in diffs], {"kind": "premarked", "a": _spec_json(sa), "b": _spec_json(sb), "ordered": ordered, "reduce": reduce})
+            if modified:
+                break
+    return res
+
+
 def _copy_chunk(chunk, prop):
     """Clause C1 (and all others) on diff(T, T.copy())."""
     res = Result(prop)
@@ -554,12 +582,15 @@ def run(prop: str, tier: str, only=None) -> Result:
     # the same for larger trees with sampled changes
     hp = []
     for sb in gen.history_specs(gen.plain_specs(3 if tier == "quick" else 4, min_n=1)):
+        if sb.hist[1][0] == "setid":
+            continue  # the same data under another data_id: whether that is "the same child" is the library's call (it matches by id); the oracle names children by data
         sa = gen.Spec(sb.hist[0])
         hp += [(sa, sb), (sb, sa)]
     nb = 8 if tier == "quick" else 60
     for k, sa in enumerate(gen.big_specs(seed() + 11, nb, lo=16, hi=30)):
         for sb in gen.history_specs([sa], sample=(random.Random(base + 77 + k), 6)):
-            hp += [(sa, sb), (sb, sa)]
+            if sb.hist[1][0] != "setid":
+                hp += [(sa, sb), (sb, sa)]
     rh = parallel(_explicit_pairs_chunk, hp, prop, prop=prop)
     rh.exhaustive = False
     total.merge(rh)
@@ -567,6 +598,13 @@ def run(prop: str, tier: str, only=None) -> Result:
         f"{len(hp)} pairs: every forest with 1..{3 if tier == 'quick' else 4} nodes over {{a,b,c}} against each tree reached from it by one change (remove, remove(keep_children), move_to, add, "
         f"remove_children, sort_children, deep copy) after all accessors had been evaluated, both directions; {nb} seeded larger trees with 16..30 nodes x 6 sampled changes (VERIF_SEED={seed()})"
     )
+    abc3 = list(gen.plain_specs(3))
+    rng_p = random.Random(base + 9)
+    pm = [(a, b) for a in abc3 for b in abc3] if tier != "quick" else [(rng_p.choice(abc3), rng_p.choice(abc3)) for _ in range(1500)] + [(a, a) for a in abc3]
+    rp = parallel(_premarked_chunk, pm, prop, prop=prop)
+    rp.exhaustive = tier != "quick"
+    total.merge(rp)
+    total.bounds["Tree.diff (inputs that already carry 'dc' metadata)"] = f"{len(pm)} pairs of forests <= 3 nodes over {{a,b,c}} whose nodes all carry stale marks under 'dc' (and another key), x ordered x reduce"
     pairs = random_pairs(n_rand, n_max, base)
     r = parallel(_explicit_pairs_chunk, pairs, prop, prop=prop)
     r.exhaustive = False
@@ -581,6 +619,9 @@ def run(prop: str, tier: str, only=None) -> Result:
 def replay(witness: dict, prop: str) -> list[tuple[str, str]]:
     sa = spec_from_json(witness["a"])
     t0, _ = gen.build(sa, name="T0")
+    if witness.get("kind") == "premarked":
+        r = _premarked_chunk([(sa, spec_from_json(witness["b"]))], prop)
+        return [(v.clause, v.text) for v in r.violations if v.witness.get("ordered") == witness.get("ordered") and v.witness.get("reduce") == witness.get("reduce")]
     if witness.get("kind") == "copy":
         t1 = t0.copy()
     else:
